@@ -19,4 +19,5 @@ var extraCmds = map[string]func([]string){
 	"env":    records.EnvMain,
 	"probe":  records.ProbeMain,
 	"scale":  records.ScaleMain,
+	"output": records.OutputMain,
 }
